@@ -1002,7 +1002,7 @@ def c07_model_configs(tier):
     for ver in (3, 5):
         for role in ("server", "client"):
             srv = role == "server"
-            cs.append(ep_config(f"m_v{ver}{role[0]}_end", quota=q, ver=ver, role=role, ids="Ids12" if tier != "quick" else "Ids1", n=n,
+            cs.append(ep_config(f"m_v{ver}{role[0]}_end", quota=q, ver=ver, role=role, ids="Ids1", n=n,
                                 kinds="KEnd" if srv else "KPub01", outs="OErr", imm=T, gp=T if srv else F, ends="EAll"))
             cs.append(ep_config(f"m_v{ver}{role[0]}_slow", quota=q, ver=ver, role=role, ids="Ids12", n=n,
                                 kinds="KPub12" if srv else "KPub01", outs="OOk", imm=F, gp=F, ends="EPeer", gs=T))
